@@ -418,7 +418,6 @@ func (x *Exec) lookup(st *State, in *ssa.Lookup, set func(ssa.Value, Val)) {
 	mv := x.valOf(st, in.X)
 	key := x.term(st, x.valOf(st, in.Index), false)
 	ks, vs, dn, vn, dsrt, vsrt := x.mapSorts(mt)
-	_ = ks
 	var okT, valT string
 	if mv.Inner != nil && mv.Inner.S == "@kf" {
 		tab := x.E.kfTable()
@@ -465,6 +464,8 @@ func (x *Exec) lookup(st *State, in *ssa.Lookup, set func(ssa.Value, Val)) {
 		mtm := x.term(st, mv, false)
 		d := st.heap(dn, dsrt)
 		v := st.heap(vn, vsrt)
+		// the nil map has no entries
+		st.assume(fmt.Sprintf("(= (select %s 0) ((as const (Array %s Bool)) false))", d, ks))
 		okT = fmt.Sprintf("(select (select %s %s) %s)", d, mtm, key)
 		valT = fmt.Sprintf("(ite %s (select (select %s %s) %s) %s)", okT, v, mtm, key, U.zero(mt.Elem()))
 	}
@@ -707,6 +708,7 @@ func (x *Exec) frameCheck(st *State) {
 		return
 	}
 	var goals []string
+	var gnames []string
 	for _, hn := range st.heapNames() {
 		if strings.HasPrefix(hn, "G:") {
 			continue
@@ -727,10 +729,10 @@ func (x *Exec) frameCheck(st *State) {
 			}
 		}
 		goals = append(goals, fmt.Sprintf("(forall ((r Int)) (=> (and (<= 0 r) (< r alloc@0)%s) (= (select %s r) (select %s r))))", ex.String(), cur, init))
+		gnames = append(gnames, hn)
 	}
 	_ = U
-	sort.Strings(goals)
-	for _, g := range goals {
-		st.check(x.key+"/frame", g, "nothing outside `assigns` is modified")
+	for i, g := range goals {
+		st.check(x.key+"/frame", g, "nothing outside `assigns` is modified: "+gnames[i])
 	}
 }
